@@ -116,6 +116,8 @@ def check(repo: Repo, rep: Report) -> None:
                 R = x_.node.func.value.id
                 defs_ = [n_.value for n_ in g_.direct_nodes() if isinstance(n_, (ast.Assign, ast.AnnAssign)) and n_.value is not None
                          and u(n_.targets[0] if isinstance(n_, ast.Assign) else n_.target) == R]
+                from ..ctx import returned_expr as _rex
+                defs_ = [_rex(g_, d_) for d_ in defs_]
                 ok_ = len(defs_) == 1 and isinstance(defs_[0], ast.BoolOp) and isinstance(defs_[0].op, ast.Or) and isinstance(defs_[0].values[-1], ast.Call)
                 rep.ob("Y9-scheduler-resolved", g_, f"{g_.qual}: `{short(x_.node, 40)}` on `{R} = {short(defs_[0], 60) if defs_ else '<parameter>'}`", ok_,
                        f"{g_.qual} schedules on `{R}`, which is not resolved through `... or <default scheduler>()`: when neither the factory nor "
